@@ -253,14 +253,14 @@ def rule_s2_s4(ck, prog, model):
             # which branch decided summary?
             dec = None
             for a, pol in p.facts:
-                tv = truth_of(p, a)
+                tv = p.btruth.get(a.id) or truth_of(p, a)
                 if tv is not None and a.get("path") in p.truth or (tv is not None and a.k != "BinaryOperator"):
                     dec = (a, pol, tv)
             if dec is None:
-                # take the last fact
+                # take the last fact (its truth function as it was when the branch was taken)
                 if p.facts:
                     a, pol = p.facts[-1]
-                    tv = truth_of(p, a)
+                    tv = p.btruth.get(a.id) or truth_of(p, a)
                     dec = (a, pol, tv)
             if dec is None or dec[2] is None:
                 ck.undecided("C11-S4", st, K.loc(fn), "cannot find the summary decision on this path")
